@@ -17,12 +17,16 @@ pub struct Case {
     pub inputs: Inputs,
     #[serde(default)]
     pub planted: Vec<String>,
+    /// print with the fewest parentheses the documented operator precedence allows
+    #[serde(default)]
+    pub lean: bool,
 }
 
 pub fn strategy(cfg: Cfg, len: usize, per_fn: usize) -> impl Strategy<Value = Case> {
     prop::collection::vec(any::<u16>(), 0..len).prop_map(move |data| {
+        let lean = data.first().is_some_and(|x| x % 2 == 1);
         let (prog, inputs, planted) = build_case(data, cfg.clone(), per_fn);
-        Case { prog, inputs, planted }
+        Case { prog, inputs, planted, lean }
     })
 }
 
@@ -209,7 +213,7 @@ pub fn check_with(c: &Case, info: &mut CaseInfo, poison: bool) -> CheckResult {
             // attribute the failure to the known empty-substruct defect only if the same program
             // with that construct spelled differently agrees with the semantics
             if let Some(q) = rewrite_empty_substruct(&c.prog) {
-                let c2 = Case { prog: q, inputs: c.inputs.clone(), planted: c.planted.clone() };
+                let c2 = Case { prog: q, inputs: c.inputs.clone(), planted: c.planted.clone(), lean: c.lean };
                 if check_inner(&c2, &mut CaseInfo::default(), poison).is_ok() {
                     return Err(vcommon::Failure::new(SIG_EMPTY_SUBSTRUCT, e.detail));
                 }
@@ -219,8 +223,19 @@ pub fn check_with(c: &Case, info: &mut CaseInfo, poison: bool) -> CheckResult {
     }
 }
 
+/// Policy source text of a case, in the case's printing style.
+pub fn text_of(c: &Case) -> String {
+    LEAN.with(|l| l.set(c.lean));
+    let t = print_prog(&c.prog);
+    LEAN.with(|l| l.set(false));
+    t
+}
+
 pub fn check_inner(c: &Case, info: &mut CaseInfo, poison: bool) -> CheckResult {
-    let text = print_prog(&c.prog);
+    let text = text_of(c);
+    if c.lean {
+        info.label("printed_with_minimal_parentheses");
+    }
     let module = match compile_module(&text) {
         Ok(m) => m,
         Err(CompileOutcome::Panicked(m)) => fail!("front end panicked", "{m}\n{text}"),
@@ -289,7 +304,7 @@ pub fn run(ctx: &Ctx) -> ! {
     let mut rep = Report::new(ctx, "exploration");
     rep.assume("the reference interpreter (interp.rs) is the language semantics: strict left-to-right evaluation, short-circuit && || or, block scoping, add/sub yield None on overflow, saturating_* clamp, structural ==, first matching arm, todo()/failed debug_assert/falling off a function end panic");
     rep.assume("functions are entered at their label with arguments pushed in order (what a Call instruction sees); VM stack exhaustion (100 slots) is skipped and counted");
-    let n = ctx.pick(4_000, 120_000);
+    let n = ctx.pick(10_000, 200_000);
     rep.explore(
         "functions_depth4",
         "programs of 1-4 acyclic pure functions (0-3 params, let/check/if/match/debug_assert/return, expression depth <=4) over bool/int/string/id/enum/struct/option/result, each function run on 3 argument vectors incl. i64 boundaries; VM result/panic/FFI trace vs reference interpreter; non-trivial = statement depth >=3 and (match with binding or coalesce or checked/saturating arithmetic with a boundary integer)",
